@@ -12,7 +12,8 @@ classes, decorators, template parameters, parameters, return type), symbol objec
 before/after every op, and against the first time the same module (same file) was registered in the session (reload = restore from
 the stored symbol snapshot). Pools contain a generic-function module (app.g) and a shapes module (app.h, 144 variants: generic base
 with a template typed member, concrete subclass chain, a function with 10..12 parameters) whose users read the inherited member /
-call the wide function. Memoised lists / dicts / sets handed out by the real Memoize.get record every in-place mutation (oracle
+call the wide function. Imports may stand after other top-level statements (`late`); a module may die with an unexpected
+exception while loading (`crash`); import edges: model == Entrypoint.imports (stream) == Python ast (search). Memoised lists / dicts / sets handed out by the real Memoize.get record every in-place mutation (oracle
 `memo-mutated`). State inventory: translate/gen_session_state.py -> Generated/SessionState.lean (theorems inventory_*).
 """
 from __future__ import annotations
@@ -453,6 +454,12 @@ def gen_module(rng: random.Random, name: str, earlier: list[dict[str, Any]], p_b
 		mod['vars'].append((f'v{i}', not (rng.random() < p_bad * 0.4)))
 	if rng.random() < p_bad * 0.35:
 		mod['ok'] = False
+	if rng.random() < p_bad * 0.14:
+		# the load dies with an exception that is NOT a tranp error (ValueError in the node model -> Errors.Fatal)
+		mod['crash'] = True
+	if mod['imports'] and rng.random() < 0.35:
+		# the last `late` imports stand after other top-level statements (classes, functions, variables)
+		mod['late'] = rng.randint(1, len(mod['imports']))
 	return mod
 
 
@@ -480,8 +487,14 @@ def render_source(mod: dict[str, Any]) -> str:
 	if mod.get('stub') == 'h':
 		return h_source(mod['hv'])
 	lines: list[str] = []
-	for dep, n in mod['imports']:
+	late = min(int(mod.get('late') or 0), len(mod['imports']))
+	lead = mod['imports'][:len(mod['imports']) - late]
+	late_lines = [f'from {dep} import {n}' for dep, n in mod['imports'][len(lead):]]
+	for dep, n in lead:
 		lines.append(f'from {dep} import {n}')
+	if not mod['classes'] and not mod.get('crash') and not mod['vars']:
+		lines += late_lines
+		late_lines = []
 	for c in mod['classes']:
 		if not c['methods']:
 			lines.append(f"class {c['name']}: ...")
@@ -504,8 +517,15 @@ def render_source(mod: dict[str, Any]) -> str:
 				lines += ['\t\ty = x', '\t\tz = x', '\t\tw = x', '\t\tf = lambda: y + z + w + x', '\t\treturn f()']
 			else:
 				lines.append('\t\treturn x')
+	if mod.get('crash'):
+		# a free function whose first parameter is called `self`: the node model looks for the enclosing class (ValueError)
+		lines += ['def attach(self, v: int) -> int:', '\treturn v']
+	if mod['classes'] or mod.get('crash'):
+		lines += late_lines
+		late_lines = []
 	for v, ok in mod['vars']:
 		lines.append(f"{v}: {'int' if ok else 'Nope'} = 0")
+	lines += late_lines
 	if not lines:
 		lines.append('pass')
 	if not mod['ok']:
@@ -529,7 +549,7 @@ def desc_tokens(mod: dict[str, Any]) -> list[str]:
 				ms.append(m['name'])
 		clss.append(f"{c['name']}/{','.join(ms)}" if ms else c['name'])
 	vs = ','.join(f"{v}:{1 if ok else 0}" for v, ok in mod['vars']) or '-'
-	return ['1' if mod['ok'] else '0', imps, ';'.join(clss) or '-', vs]
+	return ['0' if not mod['ok'] else '2' if mod.get('crash') else '1', imps, ';'.join(clss) or '-', vs]
 
 
 def write_pool(proj: str, pool: list[dict[str, Any]]) -> None:
@@ -657,6 +677,13 @@ def gen_ops(rng: random.Random, pool: list[dict[str, Any]], n: int, p_bad: float
 				# .. or the import itself transpiled after its user (what the user's transpile looked up in it must not show)
 				ops += [['transpile', u['name']], ['unload', d] if rng.random() < 0.6 else ['transpile', d], ['transpile', u['name']]]
 				continue
+		if rng.random() < 0.08:
+			# the same request twice in a row (after a failing first attempt the second one must fail the same way)
+			crashing = [m['name'] for m in pool if m.get('crash') or not m['ok']]
+			askers = [m['name'] for m in pool if any(d in crashing for d, _ in m['imports'])] or names
+			t = rng.choice(askers)
+			ops += [['transpile', t], ['transpile', t]]
+			continue
 		target = rng.choice(names)
 		if rng.random() < p_bad * 0.15:
 			target = rng.choice(['app.zz', *prelude_names])
@@ -690,7 +717,7 @@ def run_session(ctx: Ctx, pool: list[dict[str, Any]], ops: list[list[Any]], proj
 	except Exception as e:  # noqa: BLE001 - the property says a process can be set up: reported by the search
 		for op in ops:
 			lines.append('\t'.join(['resubmit', *desc_tokens(op[1])]) if op[0] == 'resubmit' else f'{op[0]}\t{op[1]}')
-		return {'proj': proj, 'lines': lines, 'real': [f'app-error:{canon(e)}'] * len(ops), 'results': [], 'frame_bad': [], 'reload_bad': [], 'memo_bad': [], 'crash': canon(e)}
+		return {'proj': proj, 'lines': lines, 'real': [f'app-error:{canon(e)}'] * len(ops), 'results': [], 'frame_bad': [], 'reload_bad': [], 'memo_bad': [], 'imports_bad': [], 'crash': canon(e)}
 	real: list[str] = []
 	results: list[dict[str, Any]] = []
 	frame_bad: list[dict[str, Any]] = []
@@ -768,7 +795,42 @@ def run_session(ctx: Ctx, pool: list[dict[str, Any]], ops: list[list[Any]], proj
 						f"symbol table entries changed: {dict_diff(snap[m]['symbols'], now[m]['symbols'])}"
 					# transpiling m itself may legitimately resolve more of m's own nodes; classes of already resolved paths must not change
 					frame_bad.append({'op': i, 'module': m, 'what': what})
-	return {'proj': proj, 'lines': lines, 'real': real, 'results': results, 'frame_bad': frame_bad, 'reload_bad': reload_bad, 'memo_bad': memo_bad}
+	# the import edges of every pool module: model (`imports` of the descriptor: what load / unload follow) vs the real
+	# `Entrypoint.imports` vs an independent reading of the source text
+	edges = import_edges(ctx, proj, pool)
+	lines += [f"imports\t{e['module']}" for e in edges]
+	real += [f"imports|{e['real']}" for e in edges]
+	return {'proj': proj, 'lines': lines, 'real': real, 'results': results, 'frame_bad': frame_bad, 'reload_bad': reload_bad, 'memo_bad': memo_bad,
+		'imports_bad': [e for e in edges if e['real'] != e['ast']]}
+
+
+def ast_imports(source: str) -> str:
+	"""All top-level imports of a source text, read with Python's own parser (independent of tranp's node classes)."""
+	import ast
+	try:
+		tree = ast.parse(source)
+	except SyntaxError:
+		return 'none'
+	out: list[str] = []
+	for st in tree.body:
+		if isinstance(st, ast.ImportFrom):
+			out.append(st.module or '')
+		elif isinstance(st, ast.Import):
+			out.extend(a.name for a in st.names)
+	return ','.join(out)
+
+
+def import_edges(ctx: Ctx, proj: str, pool: list[dict[str, Any]]) -> list[dict[str, Any]]:
+	"""Entrypoints.load parses one file and registers nothing in Modules: a session of its own, only used as a parser."""
+	probe = RealSession(proj, warm_cache(ctx, prelude(ctx)['cache']))
+	out = []
+	for mod in pool:
+		try:
+			rl = ','.join(i.import_path.tokens for i in probe.eps.load(mod['name']).imports)
+		except Exception:  # noqa: BLE001 - a file that does not parse has no edges (the model says `none` as well)
+			rl = 'none'
+		out.append({'module': mod['name'], 'real': rl, 'ast': ast_imports(render_source(mod)), 'source': render_source(mod)})
+	return out
 
 
 # ---------------------------------------------------------------------------------------------
@@ -940,7 +1002,7 @@ def norm_case(rec: dict[str, Any]) -> dict[str, Any]:
 		return {'name': m['name'], 'ok': bool(m['ok']), 'imports': [tuple(x) for x in m['imports']],
 			'classes': [{'name': c['name'], 'methods': [{'name': x['name'], 'call': tuple(x['call']) if x.get('call') else None, 'bad': bool(x.get('bad')), 'lam': bool(x.get('lam')),
 				**({'gen': x['gen']} if x.get('gen') else {}), **({'src': list(x['src'])} if x.get('src') else {})} for x in c['methods']]} for c in m['classes']],
-			'vars': [tuple(x) for x in m['vars']]}
+			'vars': [tuple(x) for x in m['vars']], **({'crash': True} if m.get('crash') else {}), **({'late': int(m['late'])} if m.get('late') else {})}
 	pool = [norm_mod(m) for m in rec['pool']]
 	ops = [[o[0], norm_mod(o[1])] if o[0] == 'resubmit' else [o[0], o[1]] for o in rec['ops']]
 	return {'id': rec.get('id', '?'), 'pool': pool, 'ops': ops}
@@ -958,8 +1020,9 @@ def gen_cases(ctx: Ctx, stream: str, n: int, max_ops: int, p_bad: float) -> list
 
 
 def case_class(case: dict[str, Any]) -> str:
-	bad = sum(1 for m in case['pool'] if not m['ok'] or any(not ok for _, ok in m['vars']) or any(n == 'Nope' for _, n in m['imports']))
-	return f"modules={len(case['pool'])},bad={bad},cycle={int(has_cycle(case['pool']))},ops<{(len(case['ops']) // 10 + 1) * 10}"
+	bad = sum(1 for m in case['pool'] if not m['ok'] or m.get('crash') or any(not ok for _, ok in m['vars']) or any(n == 'Nope' for _, n in m['imports']))
+	late = sum(1 for m in case['pool'] if m.get('late'))
+	return f"modules={len(case['pool'])},bad={bad},late={min(late, 2)},cycle={int(has_cycle(case['pool']))},ops<{(len(case['ops']) // 10 + 1) * 10}"
 
 
 _RUNS: dict[str, dict[str, Any]] = {}
@@ -1009,6 +1072,32 @@ def search_fresh(ctx: Ctx, cases: list[dict[str, Any]], all_seed_cases: int) -> 
 		compare_with_fresh(ctx, res, case, run, seeds, seen)
 	res.distinct = len(seen)
 	res.note = f'{len(cases)} sessions; the first {all_seed_cases} under all four hash seeds, the others under one rotating seed'
+	return res
+
+
+def search_imports(ctx: Ctx, cases: list[dict[str, Any]]) -> SearchResult:
+	res = SearchResult('Entrypoint.imports (the edges Modules.load / unload follow) == all top-level imports of the source text read with Python ast: pool modules, stub modules, the library closure')
+	seen: set[str] = set()
+	for case in cases:
+		run = session_run(ctx, case)
+		res.cases += len(case['pool'])
+		for e in run['imports_bad']:
+			if e['source'] not in seen:
+				seen.add(e['source'])
+				res.findings.append(Finding(key='imports-ast', what=f"module {e['module']}: Entrypoint.imports gives [{e['real']}], the source has the top-level imports [{e['ast']}]",
+					replay={'case': case, 'module': e['module'], 'source': e['source'], 'real': e['real'], 'ast': e['ast']}))
+	# the real files of the library closure
+	from rogw.tranp.file.loader import ISourceLoader
+	ses = RealSession(ctx.tmpdir('c04-prelude-'), warm_cache(ctx, prelude(ctx)['cache']))
+	files = ses.app.resolve(ISourceLoader)
+	for m in prelude(ctx)['mods']:
+		res.cases += 1
+		mod = ses.modules.load(m['name'])
+		rl = ','.join(i.import_path.tokens for i in mod.entrypoint.imports)
+		al = ast_imports(files.load(m['name'].replace('.', '/') + '.py'))
+		if rl != al:
+			res.findings.append(Finding(key='imports-ast', what=f"library module {m['name']}: Entrypoint.imports gives [{rl}], the file has the top-level imports [{al}]", replay={'module': m['name'], 'real': rl, 'ast': al}))
+	res.distinct = res.cases
 	return res
 
 
@@ -1310,6 +1399,7 @@ STATEMENTS: dict[str, str] = {
 	'det_ref': 'in every reachable state transpile m = the reference result of m: render(m, tree, reference tables) for a module with reference table, the reference error (first failing import in load order / parser / ExpandModules) otherwise',
 	'det': 'DETERMINISM over all histories: two processes over the same files with the same current in-memory source answer transpile m identically (texts, render errors, load errors), whatever their histories of load / transpile / unload / resubmit were and whichever operations failed',
 	'inv_stableU / det_all': 'the same over ALL histories including unloads of library modules (cascade: afterwards only base modules are registered), for every module outside the library base; extra hypothesis BaseWorld: loading base modules while only base modules are registered restores their base tables',
+	'failed_load_leaves_no_residue': 'for EVERY failure kind (syntax, missing file, missing imported name, failing import, RecursionError, Errors.Fatal = any unexpected exception inside the load): after a failed load of an unregistered module m from a coherent state, m is not registered and has no entrypoint, no symbol, no completed flag (the rollback is unconditional) — unless the library load that runs first had itself loaded m completely; non-vacuity example: a module with a free function taking `self` fails with Fatal, its importer fails the same way on the first and on the second request',
 	'unload_resets / unload_noop': 'unload m of a registered module leaves nothing of m in the registry, the entrypoints (with the node tables and memos they own), the symbol table, the completed list and the memoised identities, after the whole cascade; unload of an unregistered module changes nothing',
 	'inventory_unload': 'GENERATED inventory (translate/gen_session_state.py: every attribute / class-level / module-level container, every attribute rebound outside __init__, every memoised key, every setattr / cache decorator / global, every write to an attribute of another object, in all sources of rogw/tranp; writers pinned; verdict per site audited in translate/c04_state_audited.json): every site audited "removed by unload" or "owned by a per-module entry" names a model component in which unload m leaves nothing of m; every site audited "keyed by content" or "per-call stack" names a component unload does not touch',
 	'inventory_backed': 'every component of the model state except the symbol files (file system) is backed by at least one site of the inventory',
@@ -1412,6 +1502,7 @@ def run_checked(ctx: Ctx, before: str | None) -> int:
 		searches = [
 			timed('fresh', search_fresh, ctx, fresh_cases, ctx.scale(1, len(corpus) + 4)),
 			timed('frame', search_frame, ctx, [c for c in [*corpus, *valid, *faulty] if c['id'] in _RUNS]),
+			timed('imports', search_imports, ctx, [c for c in [*corpus, *valid, *faulty] if c['id'] in _RUNS]),
 			timed('interactive', search_interactive, ctx),
 			timed('runner', search_runner, ctx),
 			timed('depends', search_depends, ctx),
@@ -1419,7 +1510,7 @@ def run_checked(ctx: Ctx, before: str | None) -> int:
 			timed('audit', audit_hash_order),
 		]
 		# last: sees what every session of this run recorded
-		searches.insert(2, timed('memo', search_memo, ctx, [c for c in [*corpus, *valid, *faulty] if c['id'] in _RUNS]))
+		searches.insert(3, timed('memo', search_memo, ctx, [c for c in [*corpus, *valid, *faulty] if c['id'] in _RUNS]))
 	if before is not None and tree_fingerprint() != before:
 		raise common.InfraError(f'{common.REPO} changed while the check was running: session and fresh-process results are not comparable, run again')
 	return common.finish(ctx, proof, streams, searches, statements=STATEMENTS, partial=PARTIAL, assumptions=ASSUMPTIONS, translate_ok=translate_ok, translate_msg=translate_msg,
@@ -1441,10 +1532,10 @@ def replay(ctx: Ctx, path: str) -> int:
 		compare_with_fresh(ctx, res, case, run, [HASH_SEEDS[0]], set())
 		for f in res.findings:
 			print(f'REPLAY finding key={f.key}: {f.what}')
-		for b in [*run['frame_bad'], *run['reload_bad'], *run['memo_bad']]:
+		for b in [*run['frame_bad'], *run['reload_bad'], *run['memo_bad'], *run['imports_bad']]:
 			print(f'REPLAY frame finding: {b}')
 		ctx.cleanup()
-		return 1 if res.findings or run['frame_bad'] or run['reload_bad'] or run['memo_bad'] else 0
+		return 1 if res.findings or run['frame_bad'] or run['reload_bad'] or run['memo_bad'] or run['imports_bad'] else 0
 	ctx2 = Ctx(PROP, rec.get('tier', 'quick'), int(rec.get('seed', 0)))
 	return run_again(ctx2)
 
